@@ -346,6 +346,110 @@ def headClass (title : Option Str) (metas : List Node) : String :=
   else if anyStr (· = cCr) ss then "cr-char"
   else "unexpected"
 
+
+/-! ### `wview`: views with leptos wrapper components, three rendering entry points -/
+
+def leafOf (n : VNode) : WNode := .leaf n
+
+/-- two node lists in a row, each closed by `<` -/
+partial def parseW (top : Bool) (cs : List Char) (acc : List WNode) : Option (List WNode × List Char) :=
+  match cs with
+  | [] => if top then some (acc.reverse, []) else none
+  | '<' :: r => if top then none else some (acc.reverse, r)
+  | 'T' :: r => do
+    let (s, r) ← hexField r
+    parseW top r (.leaf (.text s) :: acc)
+  | 't' :: r => do
+    let (t, r) ← untilColon r
+    if t.isEmpty || !t.all Char.isAlphanum then none
+    let (s, r) ← hexField r
+    parseW top r (.leaf (.text s) :: acc)
+  | 'P' :: r => do
+    let (t, r) ← untilColon r
+    if t.isEmpty || !t.all Char.isAlphanum then none
+    let (s, r) ← hexField r
+    parseW top r (.leaf (.prim s) :: acc)
+  | 'Z' :: r => parseW top r (.leaf .unit :: acc)
+  | 'I' :: r => do
+    -- islands hold no wrapper components here: their children are ordinary nodes
+    let (c, r) ← hexField r
+    let (p, r) ← hexField r
+    let (kids, r) ← parseNodes false r []
+    parseW top r (.leaf (.island c p kids) :: acc)
+  | 'J' :: r => do
+    let (kids, r) ← parseNodes false r []
+    parseW top r (.leaf (.islandChildren kids) :: acc)
+  | 'E' :: r => do
+    let (tag, r) ← untilSemi r
+    if tag.isEmpty || !tag.all tagCharOK then none
+    let (attrs, r) ← parseAttrs r []
+    let (kids, r) ← parseW false r []
+    parseW top r (.elem tag attrs kids :: acc)
+  | 'G' :: b :: ':' :: r => do
+    let (c, _) ← boolField [b]
+    let (kids, r) ← parseW false r []
+    let (fb, r) ← parseW false r []
+    parseW top r (.show c kids fb :: acc)
+  | 'Q' :: ':' :: r => do
+    let (kids, r) ← parseW false r []
+    let (fb, r) ← parseW false r []
+    parseW top r (.boundary kids fb :: acc)
+  | 'r' :: r => do
+    let (s, r) ← hexField r
+    parseW top r (.okStr s :: acc)
+  | 'x' :: r => do
+    let (s, r) ← hexField r
+    parseW top r (.err s :: acc)
+  | 'M' :: r => parseW top r (.errMsgs :: acc)
+  | 'f' :: d :: ':' :: r => do
+    if !(d = '0' || d = '1') then none
+    let (rows, r) ← parseW false r []
+    let strs ← rows.mapM fun | .leaf (.text s) => some s | _ => none
+    parseW top r (.forEach (if d = '0' then 0 else 1) strs :: acc)
+  | 'u' :: b :: ':' :: r => do
+    let (_, _) ← boolField [b]
+    let (kids, r) ← parseW false r []
+    let (fb, r) ← parseW false r []
+    parseW top r (.suspense kids fb :: acc)
+  | 'y' :: d :: ':' :: r => do
+    if !d.isDigit then none
+    let (kids, r) ← parseW false r []
+    parseW top r (.suspend kids :: acc)
+  | 'w' :: d :: ':' :: r => do
+    if !d.isDigit then none
+    let (s, r) ← hexField r
+    parseW top r (.await s :: acc)
+  | k :: ity :: ':' :: r =>
+    if contKinds.contains k && itemTys.contains ity then do
+      let (kids, r) ← parseW false r []
+      match k with
+      | 'V' => parseW top r (.vec kids :: acc)
+      | 'N' => if kids.isEmpty then parseW top r (.leaf .unit :: acc) else none
+      | 'O' | 'L' | 'R' => if kids.length = 1 then parseW top r (.seq kids :: acc) else none
+      | 'U' => parseW top r ((if kids.isEmpty then .leaf .unit else .seq kids) :: acc)
+      | _ => parseW top r (.seq kids :: acc)
+    else none
+  | _ => none
+
+def hexPlain (s : Str) : String :=
+  String.ofList ((String.ofList s).toUTF8.toList.flatMap fun b => [hexDigit (b.toNat / 16 % 16), hexDigit (b.toNat % 16)])
+
+/-- canonical text of a (normalised) document -/
+partial def canon : List Tree → String
+  | [] => ""
+  | .text s :: r => s!"T{hexPlain s};" ++ canon r
+  | .comment s :: r => s!"C{hexPlain s};" ++ canon r
+  | .elem t a ks :: r =>
+    s!"E{hexPlain t};" ++ String.join (a.map fun (n, v) => s!"A{hexPlain n}={hexPlain v};") ++ ">" ++ canon ks ++ "<" ++ canon r
+
+/-- the model's side of one paint: its HTML parsed and normalised, against the resolved view -/
+def paint (v : List VNode) : String × Option String :=
+  match parse (vToHtml v) with
+  | some t =>
+    let n := normList t
+    (canon n, if n = normList (vStructureOf v) then none else some (viewClass v))
+  | none => ("none", some (viewClass v))
+
 def step (_ : Unit) (line : String) : Unit × String :=
   let out :=
     match words line with
@@ -365,6 +469,27 @@ def step (_ : Unit) (line : String) : Unit × String :=
           if parse html = some (headStructure title metas) then "ok" else s!"fail {headClass title metas}"
         s!"{hexOfStr html} ## {verdict}"
       | _, _ => "bad-op"
+    | ["wview", mode, w] =>
+      match parseW true w.toList [] with
+      | some (ws, []) =>
+        let first := resolveKids false [] ws
+        let settled := resolveKids true [] ws
+        let show1 := fun (o : String × Option String) =>
+          match o.2 with
+          | none => s!"{o.1} ## ok"
+          | some c => s!"{o.1} ## fail {c}"
+        if mode == "s" then show1 (paint first)
+        else if mode == "i" then show1 (paint settled)
+        else if mode == "o" then
+          let a := paint first
+          let b := paint settled
+          let obs := s!"{a.1}|{b.1}"
+          match a.2, b.2 with
+          | none, none => s!"{obs} ## ok"
+          | some c, _ => s!"{obs} ## fail {c}"
+          | _, some c => s!"{obs} ## fail {c}"
+        else "bad-op"
+      | _ => "bad-op"
     | "doc" :: items =>
       match items.mapM decodeDocItem with
       | some its =>
